@@ -225,7 +225,7 @@ func (w *Watcher) fetchEvents(ctx context.Context, logger *zap.Logger, client *C
 			}
 			logger.Info("alephium contract event count", zap.Int32("count", *count), zap.Int32("fromIndex", fromIndex))
 
-			if *count == fromIndex {
+			if *count <= fromIndex {
 				continue
 			}
 
@@ -244,8 +244,13 @@ func (w *Watcher) fetchEvents(ctx context.Context, logger *zap.Logger, client *C
 				}
 				unconfirmedEvents = append(unconfirmedEvents, unconfirmed...)
 
+				if events.NextStart <= fromIndex {
+					// no progress: stop this round instead of asking again for the same page
+					break
+				}
 				fromIndex = events.NextStart
-				if events.NextStart == *count {
+				if fromIndex >= *count {
+					// the event count may have moved since it was polled: do not wait for equality
 					break
 				}
 			}
